@@ -108,6 +108,19 @@ def poly_identity(eq):
     return z3.is_rational_value(d) and d.numerator_as_long() == 0
 
 
+class _Setup:
+    """``with B.setup():`` -- scenario construction; an exception here is a
+    harness/configuration error, never a verdict about the code under test."""
+
+    def __enter__(self):
+        return self
+
+    def __exit__(self, et, ev, tb):
+        if et is not None and issubclass(et, Exception) and not issubclass(et, sc.HarnessError):
+            raise sc.HarnessError(f"scenario construction failed: {et.__name__}: {ev}") from ev
+        return False
+
+
 class SymB:
     """symbolic back end (one instance per scenario; per-path state in Ctx)"""
     mode = "sym"
@@ -171,6 +184,17 @@ class SymB:
 
     def note(self, s):
         sc.cur().notes.append(s)
+
+    def setup(self):
+        return _Setup()
+
+    def snapshot(self, arr):
+        return [v for v in _flat(arr)]
+
+    def unchanged(self, label, snap, arr):
+        """the array still holds the very same element objects"""
+        now = _flat(arr)
+        self.rec.obligation(label, z3.BoolVal(len(now) == len(snap) and all(a is b for a, b in zip(snap, now))))
 
     def fork(self, n, tag="choice"):
         """nondeterministic choice among range(n) (explored exhaustively)"""
@@ -267,6 +291,18 @@ class ConcB:
 
     def note(self, s):
         pass
+
+    def setup(self):
+        return _Setup()
+
+    def snapshot(self, arr):
+        return np.array([complex(v) for v in _flat(arr)])
+
+    def unchanged(self, label, snap, arr):
+        self.checked.append(label)
+        now = np.array([complex(v) for v in _flat(arr)])
+        if now.shape != snap.shape or not np.array_equal(now, snap):
+            self.failed.append(label)
 
     def fork(self, n, tag="choice"):
         k = self.model.get("__choices__", [])
